@@ -24,6 +24,25 @@ use super::Lead;
 use super::headers::*;
 use super::payload;
 
+/// The location of a package path below the extraction root: every component must be a
+/// normal one, so that joining it to the root cannot leave the root ("..", a second root).
+fn relative_to_root(path: &Path) -> Result<PathBuf, Error> {
+    let mut relative = PathBuf::new();
+    for component in path.components() {
+        match component {
+            std::path::Component::RootDir | std::path::Component::CurDir => {}
+            std::path::Component::Normal(name) => relative.push(name),
+            _ => {
+                return Err(Error::InvalidDestinationPath {
+                    path: path.to_string_lossy().to_string(),
+                    desc: "path leaves the extraction directory",
+                });
+            }
+        }
+    }
+    Ok(relative)
+}
+
 /// A complete rpm file.
 ///
 /// Can either be created using the [`PackageBuilder`](crate::PackageBuilder)
@@ -111,7 +130,8 @@ impl Package {
     /// # Ok(()) }
     /// ```
     pub fn extract(&self, dest: impl AsRef<Path>) -> Result<(), Error> {
-        fs::create_dir(&dest)?;
+        let dest = dest.as_ref();
+        fs::create_dir(dest)?;
 
         let dirs = self
             .metadata
@@ -120,22 +140,25 @@ impl Package {
 
         // pull every base directory name in the package and create the directory in advance
         for dir in dirs {
-            let dir_path = dest
-                .as_ref()
-                .join(Path::new(dir).strip_prefix("/").unwrap_or(dest.as_ref()));
+            let dir_path = dest.join(relative_to_root(Path::new(dir))?);
             fs::create_dir_all(&dir_path)?;
         }
+
+        // the symbolic links created so far: nothing is created at or below one of them, or it
+        // would end up wherever the link points to
+        let mut links: Vec<PathBuf> = Vec::new();
 
         // TODO: reduce memory by replacing this with an impl that writes the files immediately after reading them from the archive
         // instead of reading each file entirely into memory (while the archive is also entirely in memory) before writing them
         for file in self.files()? {
             let file = file?;
-            let file_path = dest.as_ref().join(
-                file.metadata
-                    .path
-                    .strip_prefix("/")
-                    .unwrap_or(dest.as_ref()),
-            );
+            let file_path = dest.join(relative_to_root(&file.metadata.path)?);
+            if links.iter().any(|link| file_path.starts_with(link)) {
+                return Err(Error::InvalidDestinationPath {
+                    path: file.metadata.path.to_string_lossy().to_string(),
+                    desc: "path leads through a symbolic link of the package",
+                });
+            }
 
             let perms = fs::Permissions::from_mode(file.metadata.mode.permissions().into());
             match file.metadata.mode {
@@ -154,8 +177,14 @@ impl Package {
                         fs::remove_file(&file_path)?;
                     }
                     std::os::unix::fs::symlink(&file.metadata.linkto, &file_path)?;
+                    links.push(file_path);
                 }
-                _ => unreachable!("Encountered an unknown or invalid FileMode"),
+                _ => {
+                    return Err(Error::InvalidDestinationPath {
+                        path: file.metadata.path.to_string_lossy().to_string(),
+                        desc: "unsupported file type",
+                    });
+                }
             }
         }
 
